@@ -62,9 +62,11 @@ def bits_of(v):
 
 
 class State:
-    __slots__ = ("v", "cmp", "copy", "arr")
+    __slots__ = ("v", "cmp", "copy", "arr", "copy_after", "ge")
 
     def __init__(self):
+        self.copy_after = None
+        self.ge = set()  # (ka, kb): value at ka >= value at kb
         self.arr = {}  # local -> tuple of ints (constant integer arrays)
         self.v = {}  # key -> (lo, hi)
         self.cmp = {}  # bool key -> (op, akey/None, aval, bkey/None, bval)
@@ -76,10 +78,12 @@ class State:
         s.cmp = dict(self.cmp)
         s.copy = dict(self.copy)
         s.arr = dict(self.arr)
+        s.ge = set(self.ge)
         return s
 
     def join(self, o):
         s = State()
+        s.ge = self.ge & o.ge
         for k, a in self.arr.items():
             if o.arr.get(k) == a:
                 s.arr[k] = a
@@ -87,6 +91,11 @@ class State:
             b = o.v.get(k)
             if b is not None:
                 s.v[k] = (min(a[0], b[0]), max(a[1], b[1]))
+            elif payload_vacuous(k, o.v):
+                s.v[k] = a
+        for k, b in o.v.items():
+            if k not in self.v and payload_vacuous(k, self.v):
+                s.v[k] = b
         for k, a in self.cmp.items():
             if o.cmp.get(k) == a:
                 s.cmp[k] = a
@@ -99,7 +108,11 @@ class State:
         """self ⊑ o (o is at least as imprecise)"""
         for k, b in o.v.items():
             a = self.v.get(k)
-            if a is None or a[0] < b[0] or a[1] > b[1]:
+            if a is None:
+                if payload_vacuous(k, self.v):
+                    continue
+                return False
+            if a[0] < b[0] or a[1] > b[1]:
                 return False
         for k, b in o.cmp.items():
             if self.cmp.get(k) != b:
@@ -110,6 +123,8 @@ class State:
         for k, b in o.arr.items():
             if self.arr.get(k) != b:
                 return False
+        if not (o.ge <= self.ge):
+            return False
         return True
 
     def kill(self, key):
@@ -117,6 +132,9 @@ class State:
         l, path = key
         if not path:
             self.arr.pop(l, None)
+        if self.ge:
+            self.ge = {(a, b) for (a, b) in self.ge
+                       if not (a[0] == l and a[1][: len(path)] == path) and not (b[0] == l and b[1][: len(path)] == path)}
         for k in [k for k in self.v if k[0] == l and k[1][: len(path)] == path]:
             del self.v[k]
         for k in [k for k in self.cmp if k[0] == l and k[1][: len(path)] == path]:
@@ -163,6 +181,11 @@ def type_len(ty_s):
     m = _AV_RE.match(t)
     if m:
         return (0, int(m.group(1)))
+    if t.startswith("generic_array::GenericArray<"):
+        bits = _re.findall(r"\bB([01])\b", t)
+        if bits and "UTerm" in t:
+            n = int("".join(bits), 2)
+            return (n, n)
     if t.startswith("util::ArrayVecZeroize<"):
         mm = _re.search(r", (\d+)>$", t)
         if mm:
@@ -181,6 +204,24 @@ def type_cap(ty_s):
     if m:
         return int(m.group(1))
     return None
+
+
+OK_VARIANTS = ("@Some", "@Ok", "@Continue")
+ERR_VARIANTS = ("@None", "@Err", "@Break")
+
+
+def payload_vacuous(k, other):
+    """Facts about the payload of variant V of a value are vacuously true in a state where that value
+    is known to be the other variant."""
+    path = k[1]
+    for j, comp in enumerate(path):
+        if isinstance(comp, str) and comp in OK_VARIANTS:
+            okv = other.get((k[0], path[:j] + ("#ok",)))
+            return okv == (0, 0)
+        if isinstance(comp, str) and comp in ERR_VARIANTS:
+            okv = other.get((k[0], path[:j] + ("#ok",)))
+            return okv == (1, 1)
+    return False
 
 
 def place_key(p, locals_=None):
@@ -225,7 +266,12 @@ class Analyzer:
         self.sites = {}  # (fn path, bb) -> list[Site]
         self.ctx_count = {}
         self.extern_seen = {}
+        self.trip = {}  # (fn, bb of `next` call) -> max trip count of the driven loop
+        self.trip_seen = set()
+        self.incr = {}  # (fn, bb of push/extend) -> max length increment
         self.agg_obs = {}
+        self.len_obs = {}  # (adt, field) -> join of observed lengths at every struct literal (None = unknown somewhere)
+        self.field_lens = {}  # established field length sets (see establish_field_lens)
         self._recording = False
         self._cur_locals = None
         self._len_safe = set()
@@ -422,6 +468,72 @@ class Analyzer:
             self._derived = d
         return self._derived
 
+    def filter_impls(self, tps):
+        """Under a partition that binds trait associated consts to singletons, only impls whose own
+        constants agree with the binding can be the receiver."""
+        out = []
+        for tp in tps:
+            im = self.F.fns[tp].j.get("impl")
+            keep = True
+            if im and im["self_ty"].get("k") == "adt":
+                for key, iv in self.assoc.items():
+                    if iv[0] != iv[1]:
+                        continue
+                    tr, nm = key.rsplit("::", 1)
+                    cpath = "<%s as %s>::%s" % (im["self_ty"]["s"], tr, nm)
+                    c = self.F.consts.get(cpath)
+                    if c is not None and "val" in c and c["val"] != iv[0]:
+                        keep = False
+                        break
+            if keep:
+                out.append(tp)
+        return out or tps
+
+    def establish_field_lens(self, candidates):
+        """For slice/vector-typed fields of local ADTs that are only ever written by struct literals
+        (no direct assignment, no `&mut` borrow): analyse every constructing function with unknown
+        arguments and take the join of the operand lengths observed at the literals.  Called per
+        partition binding.  `candidates` = [(adt, field)]."""
+        F = self.F
+        self.field_lens = {}
+        # which functions contain literals of which ADTs
+        lit = {}
+        direct = set()
+        for f in F.fns.values():
+            for b, i, s in f.iter_stmts():
+                if s["k"] != "assign":
+                    continue
+                rv = s["rv"]
+                if rv["k"] == "aggregate" and rv.get("agg") == "adt" and rv.get("crate") == core.LOCAL_CRATE:
+                    lit.setdefault(rv["path"], set()).add(f.path)
+                pr = s["place"]["proj"]
+                if pr and pr[-1]["k"] == "field" and "adt" in pr[-1]:
+                    direct.add((pr[-1]["adt"], pr[-1].get("name")))
+                if rv["k"] in ("ref", "rawptr") and rv.get("bk") == "mut":
+                    for e in rv["place"]["proj"]:
+                        if e["k"] == "field" and "adt" in e:
+                            direct.add((e["adt"], e.get("name")))
+            for b, t in f.calls():
+                pr = t["dest"]["proj"]
+                if pr and pr[-1]["k"] == "field" and "adt" in pr[-1]:
+                    direct.add((pr[-1]["adt"], pr[-1].get("name")))
+        self.len_obs = {}
+        done = set()
+        for adt, fld in candidates:
+            if (adt, fld) in direct:
+                continue
+            for fp in sorted(lit.get(adt, ())):
+                if fp not in done:
+                    done.add(fp)
+                    g = F.fns[fp]
+                    self.call_local(fp, [None] * g.arg_count)
+        for adt, fld in candidates:
+            if (adt, fld) in direct:
+                continue
+            v = self.len_obs.get((adt, fld))
+            if v is not None:
+                self.field_lens[(adt, fld)] = v
+
     # ------------------------------------------------------------------ calls
     def call_local(self, path, args, sub=None):
         """Analyse crate-local function `path` with integer argument intervals `args` (list aligned
@@ -447,12 +559,12 @@ class Analyzer:
             key, ctx, args, sub = key0, ctx0, [None] * f.arg_count, None
         self.ctx_count[path] = n + 1
         self.in_progress.add(key)
-        saved = (getattr(self, "_cur_locals", None), self._mut_borrowed, getattr(self, "_len_safe", set()))
+        saved = (getattr(self, "_cur_locals", None), self._mut_borrowed, getattr(self, "_len_safe", set()), getattr(self, "_ref_alias", {}))
         try:
             ret = self.analyze(f, args, ctx, sub)
         finally:
             self.in_progress.discard(key)
-            self._cur_locals, self._mut_borrowed, self._len_safe = saved
+            self._cur_locals, self._mut_borrowed, self._len_safe, self._ref_alias = saved
         self.memo[key] = ret
         return ret
 
@@ -460,6 +572,7 @@ class Analyzer:
     def analyze(self, f, args, ctx, sub=None):
         nb = len(f.blocks)
         st0 = State()
+        self.trip_seen = {k for k in self.trip_seen if k[0] != f.path}
         self._cur_locals = f.locals
         for i in range(1, f.arg_count + 1):
             rng = ty_range(f.locals[i]["ty"])
@@ -482,6 +595,16 @@ class Analyzer:
         for l in self._mut_borrowed:
             if all(x is not None for x in flow.ref_sinks(f, l)):
                 self._len_safe.add(l)
+        # reference-typed temporaries are views of their owner: their length facts are allowed even when
+        # they are re-borrowed, and are dropped whenever the owner's may change (see call())
+        self._ref_alias = {}
+        for l, decl in enumerate(f.locals):
+            if decl["ty"].get("k") == "ref" and l > f.arg_count:
+                o = flow.resolve_owner_path(f, {"k": "copy", "place": {"local": l, "proj": [], "ty": decl["ty"]["s"]}})
+                if o is not None and o[0] != l:
+                    self._ref_alias.setdefault(o[0], set()).add(l)
+                    if l in self._mut_borrowed:
+                        self._len_safe.add(l)
         thresholds = self._thresholds(f)
         instate = [None] * nb
         instate[0] = st0
@@ -510,7 +633,7 @@ class Analyzer:
                     continue
                 else:
                     j = old.join(s2)
-                    if visits[succ] >= 3:
+                    if visits[succ] >= WIDEN_DELAY:
                         j = self._widen(old, j, thresholds, f)
                     instate[succ] = j
                 if succ not in inq:
@@ -536,7 +659,17 @@ class Analyzer:
                     ret = cur
                     have_ret = True
                 else:
-                    ret = {k: join(v, cur[k]) for k, v in ret.items() if k in cur}
+                    a_, b_ = {(0, k): v for k, v in ret.items()}, {(0, k): v for k, v in cur.items()}
+                    new = {}
+                    for k, v in ret.items():
+                        if k in cur:
+                            new[k] = join(v, cur[k])
+                        elif payload_vacuous((0, k), b_):
+                            new[k] = v
+                    for k, v in cur.items():
+                        if k not in ret and payload_vacuous((0, k), a_):
+                            new[k] = v
+                    ret = new
         self._reached = getattr(self, "_reached", {})
         self._reached.setdefault(f.path, set()).update(b for b in range(nb) if instate[b] is not None)
         return ret
@@ -640,13 +773,17 @@ class Analyzer:
             p2 = dict(p)
             p2["proj"] = p["proj"][1:]
             key = place_key(p2, None) if not any(e["k"] == "deref" for e in p2["proj"]) else None
+        d = type_len(p["ty"])
+        # established length set of a constructor-only field (whatever the access path)
+        if p["proj"] and p["proj"][-1]["k"] == "field" and "adt" in p["proj"][-1]:
+            fl = self.field_lens.get((p["proj"][-1]["adt"], p["proj"][-1].get("name")))
+            if fl is not None:
+                d = (meet(fl, d) or fl) if d is not None else fl
         if key is not None:
             v = st.v.get((key[0], key[1] + ("#len",)))
             if v is not None:
-                d = type_len(p["ty"])
                 return (meet(v, d) or v) if d is not None else v
-        # a field read through a pointer: nothing tracked, fall back to the type
-        return type_len(p["ty"])
+        return d
 
     def len_of_operand(self, f, st, o):
         if o["k"] == "const":
@@ -742,10 +879,25 @@ class Analyzer:
             o = rv["op"]
             skey = self.op_key(st, o)
             if rng is None:
+                ln0 = self.len_of_operand(f, st, o)
+                if skey is None:
+                    # moving a value out of a local that was mutably borrowed: its length facts (maintained
+                    # through the call effects) move with it
+                    sp = core.op_place(o)
+                    sk2 = place_key(sp, f.locals) if sp is not None else None
+                    if sk2 is not None and sk2[0] in self._len_safe:
+                        items = [(k, v) for k, v in st.v.items() if k[0] == sk2[0] and k[1][: len(sk2[1])] == sk2[1] and k[1] and k[1][-1] == "#len"]
+                        st.kill(dkey)
+                        if dkey[0] not in self._mut_borrowed or dkey[0] in self._len_safe:
+                            for k, v in items:
+                                st.v[(dkey[0], dkey[1] + k[1][len(sk2[1]):])] = v
+                        return
                 if skey is not None:
                     self.copy_sub(st, dkey, skey)
                     if not skey[1] and not dkey[1] and skey[0] in st.arr:
                         st.arr[dkey[0]] = st.arr[skey[0]]
+                    if ln0 is not None and (dkey[0], dkey[1] + ("#len",)) not in st.v:
+                        self.set_len(st, dkey, ln0)
                 else:
                     st.kill(dkey)
                     arr = const_int_array(o)
@@ -795,7 +947,8 @@ class Analyzer:
                     st.cmp[dkey] = (NEG[op], ak, av, bk, bv)
                 return
             if rv["op"] == "PtrMetadata":
-                self.set_key(st, dkey, (0, SLICE_LEN_MAX))
+                ln = self.len_of_operand(f, st, rv["a"])
+                self.set_key(st, dkey, ln if ln is not None else (0, SLICE_LEN_MAX))
                 return
             if rv["op"] == "Not" and rng is not None and a is not None and rng[0] == 0:
                 self.set_key(st, dkey, (rng[1] - a[1], rng[1] - a[0]))
@@ -809,6 +962,16 @@ class Analyzer:
                         iv = self.op_iv(f, st, o)
                         key = (rv["path"], fname, f.path)
                         self.agg_obs[key] = join(self.agg_obs[key], iv) if key in self.agg_obs and iv is not None else (iv if key not in self.agg_obs else None)
+                    else:
+                        org = flow.origin(f, o)
+                        if org[0] == "field" and org[2] == fname and rv["path"] in f.locals[org[1]]["ty"]["s"]:
+                            continue  # clone / copy of the same field of another value of this type
+                        ln = self.len_of_operand(f, st, o)
+                        key = (rv["path"], fname)
+                        if key in self.len_obs:
+                            self.len_obs[key] = join(self.len_obs[key], ln) if (self.len_obs[key] is not None and ln is not None) else None
+                        else:
+                            self.len_obs[key] = ln
             st.kill(dkey)
             if dkey[0] in self._mut_borrowed:
                 if dkey[0] in self._len_safe and rv["agg"] == "adt" and rv["path"] not in (flow.OPTION, flow.RESULT, flow.CONTROL_FLOW):
@@ -829,6 +992,7 @@ class Analyzer:
                     st.v[(dkey[0], dkey[1] + ("#item",))] = (lo[0], max(hi[1] - 1, lo[0]))
                     st.v[(dkey[0], dkey[1] + ("start",))] = lo
                     st.v[(dkey[0], dkey[1] + ("end",))] = hi
+                    st.v[(dkey[0], dkey[1] + ("#rem",))] = (max(hi[0] - lo[1], 0), max(hi[1] - lo[0], 0))
             elif rv["agg"] == "adt":
                 variant = rv["variant"]
                 if rv["path"] in (flow.RESULT, flow.OPTION):
@@ -917,6 +1081,13 @@ class Analyzer:
                     return
                 inside = m[0] >= arng[0] and m[1] <= arng[1]
                 outside = m[1] < arng[0] or m[0] > arng[1]
+                if base == "Sub" and not inside and arng[0] == 0:
+                    ka, kb = self.op_key(st, rv["a"]), self.op_key(st, rv["b"])
+                    if ka is not None and kb is not None:
+                        ra, rb = st.copy.get(ka, ka), st.copy.get(kb, kb)
+                        if (ka, kb) in st.ge or (ra, rb) in st.ge:
+                            m = (max(m[0], 0), m[1])
+                            inside = m[1] <= arng[1]
                 st.v[(dkey[0], dkey[1] + ("1",))] = (0, 0) if inside else ((1, 1) if outside else (0, 1))
                 # the value component is only used on the no-overflow edge of the following assert
                 st.v[(dkey[0], dkey[1] + ("0",))] = meet(m, arng) or arng
@@ -997,6 +1168,14 @@ class Analyzer:
         na, nb_ = refine_pair(op, a, b)
         if na is None or nb_ is None:
             return None
+        if ak is not None and bk is not None:
+            ra, rb = s.copy.get(ak, ak), s.copy.get(bk, bk)
+            if op in ("Ge", "Gt", "Eq"):
+                s.ge.add((ra, rb))
+                s.ge.add((ak, bk))
+            if op in ("Le", "Lt", "Eq"):
+                s.ge.add((rb, ra))
+                s.ge.add((bk, ak))
         for key, val in ((ak, na), (bk, nb_)):
             if key is None:
                 continue
@@ -1108,7 +1287,9 @@ class Analyzer:
         for i, a in enumerate(t["args"]):
             p = core.op_place(a)
             if p is not None and p["ty"].startswith("&mut "):
-                mut_owners.append((i, flow.resolve_owner(f, a, want_mut=True)))
+                mut_owners.append((i, flow.resolve_owner_path(f, a, want_mut=True)))
+        if c is not None and len(tps) > 1:
+            tps = self.filter_impls(tps)
         if c is not None and tps:
             # crate-local callee(s): join of summaries, arguments carry their tracked sub-facts
             rets = []
@@ -1117,10 +1298,14 @@ class Analyzer:
                 args = [argiv[i] if (i < len(argiv) and ty_range(g.locals[i + 1]["ty"]) is not None) else None for i in range(g.arg_count)]
                 sub = {}
                 for i, a in enumerate(t["args"][: g.arg_count]):
-                    ak = self.op_key(st, a)
+                    ap = core.op_place(a)
+                    ak = place_key(ap, f.locals) if ap is not None else None
                     if ak is not None:
+                        only_len = ak[0] in self._mut_borrowed
                         for kk, vv in st.v.items():
                             if kk[0] == ak[0] and kk[1][: len(ak[1])] == ak[1] and kk[1] != ak[1]:
+                                if only_len and not (kk[1] and kk[1][-1] == "#len"):
+                                    continue
                                 sub[(i + 1, kk[1][len(ak[1]):])] = vv
                     if ak is None or (i + 1, ("#len",)) not in sub:
                         ln = self.len_of_operand(f, st, a)
@@ -1132,11 +1317,11 @@ class Analyzer:
                 ret = {k: join(v, r[k]) for k, v in ret.items() if k in r}
             effects = []
             for i, owner in mut_owners:
-                k = ("#param", i + 1, "#len")
-                effects.append((owner, ret.get(k)))
+                if owner is None:
+                    continue
                 for kk, vv in ret.items():
-                    if len(kk) > 3 and kk[0] == "#param" and kk[1] == i + 1 and kk[-1] == "#len":
-                        effects.append(((owner, kk[2:-1]), vv))
+                    if len(kk) >= 3 and kk[0] == "#param" and kk[1] == i + 1 and kk[-1] == "#len":
+                        effects.append(((owner[0], owner[1] + kk[2:-1]), vv))
         elif c is not None:
             ret, goal, effects = summaries.extern_call(self, f, st, t, c, argiv)
             modelled = effects is not None
@@ -1144,24 +1329,40 @@ class Analyzer:
                 proved, desc, detail = goal
                 self.sites.setdefault((f.path, b), []).append(Site(f.path, b, "call", desc, proved, detail, ctx))
             if effects is None:
-                effects = [(owner, None) for i, owner in mut_owners]
+                effects = []
         else:
-            effects = [(owner, None) for i, owner in mut_owners]
+            effects = []
         if t["target"] is None:
             return []
         s2 = st.clone()
         # everything known about the referent of a `&mut` argument is stale after the call ...
         for i, owner in mut_owners:
+            if owner is not None:
+                # views of the owner held in other reference temporaries are stale after any call that
+                # received a `&mut` to it
+                a_l = core.op_local(t["args"][i])
+                for r in self._ref_alias.get(owner[0], ()):
+                    if r != a_l:
+                        s2.kill((r, ()))
             if owner is not None and not modelled:
-                for kk in [kk for kk in s2.v if kk[0] == owner]:
+                s2.kill(owner)
+            elif owner is None and not modelled:
+                # a `&mut` argument whose referent cannot be identified: forget every length fact of
+                # mutably borrowed locals (conservative)
+                for kk in [kk for kk in s2.v if kk[0] in self._mut_borrowed]:
                     del s2.v[kk]
-                for kk in [kk for kk in s2.cmp if kk[0] == owner]:
-                    del s2.cmp[kk]
         # ... except what the callee's summary (or the extern model) re-establishes
         for owner, newlen in effects or []:
             if owner is None:
                 continue
             if isinstance(owner, tuple):
+                if owner[1] and isinstance(owner[1][-1], str) and owner[1][-1].startswith("#"):
+                    # explicit fact key (e.g. an iterator's remaining count)
+                    if newlen is not None:
+                        s2.v[owner] = newlen
+                    else:
+                        s2.v.pop(owner, None)
+                    continue
                 if newlen is not None and (owner[0] not in self._mut_borrowed or owner[0] in self._len_safe):
                     s2.v[(owner[0], owner[1] + ("#len",))] = newlen
                 continue
@@ -1175,17 +1376,28 @@ class Analyzer:
                 cmpinfo = ret.get(("#cmp",))
                 if cmpinfo is not None and dkey[0] not in self._mut_borrowed:
                     s2.cmp[dkey] = cmpinfo
+                cof = ret.get(("#copyof",))
+                if cof is not None and dkey[0] not in self._mut_borrowed:
+                    lk, lv = cof
+                    if lk not in s2.v and lv is not None:
+                        s2.v[lk] = lv
+                    s2.copy_after = (dkey, lk)
                 for sub, iv in ret.items():
-                    if iv is None or (sub and sub[0] in ("#param", "#cmp")):
+                    if iv is None or (sub and sub[0] in ("#param", "#cmp", "#copyof")):
                         continue
                     if dkey[0] in self._mut_borrowed and not (sub and sub[-1] == "#len" and dkey[0] in self._len_safe):
                         continue
                     s2.v[(dkey[0], dkey[1] + sub)] = iv
             if dkey[0] not in self._mut_borrowed and rng is not None and (dkey not in s2.v):
                 s2.v[dkey] = rng
+            ca = getattr(s2, "copy_after", None)
+            if ca is not None:
+                s2.copy[ca[0]] = ca[1]
+                s2.copy_after = None
         return [(t["target"], s2)]
 
 
+WIDEN_DELAY = 10
 ITER_TYPES = ("core::ops::range::Range", "core::iter::adapters::", "core::ops::range::RangeInclusive")
 def const_int_array(o):
     """Decode an evaluated constant integer array operand into a tuple of ints."""
